@@ -154,7 +154,11 @@ func WithBytes(seq Sequence, p []byte) Sequence {
 }
 
 func insert(p []byte, pos int, q []byte) []byte {
-	return append(p[:pos], append(q, p[pos:]...)...)
+	ret := make([]byte, len(p)+len(q))
+	copy(ret, p[:pos])
+	copy(ret[pos:], q)
+	copy(ret[pos+len(q):], p[pos:])
+	return ret
 }
 
 // Insert a sequence at the given index. For any feature whose location covers
